@@ -1,0 +1,8 @@
+//go:build !verif
+
+package server
+
+import "net"
+
+// verifPoint is a no-op unless the package is built with the `verif` build tag (verification hooks).
+func verifPoint(point string, conn net.Conn, n int64) {}
